@@ -88,7 +88,18 @@ def redact_claims(claims: Mapping[str, object]) -> dict[str, object]:
         A new dict with the same keys, sensitive values replaced.
 
     """
-    return {k: (REDACTED if _DEFAULT_CLAIM_REDACT_RE.search(k) else v) for k, v in claims.items()}
+    return {k: (REDACTED if _DEFAULT_CLAIM_REDACT_RE.search(k) else _redact_nested(v)) for k, v in claims.items()}
+
+
+def _redact_nested(value: object) -> object:
+    """Apply the default redaction to mappings and sequences nested inside a claim value."""
+    if isinstance(value, Mapping):
+        return {
+            k: (REDACTED if _DEFAULT_CLAIM_REDACT_RE.search(str(k)) else _redact_nested(v)) for k, v in value.items()
+        }
+    if isinstance(value, (list, tuple)):
+        return [_redact_nested(v) for v in value]
+    return value
 
 
 def no_redaction(claims: Mapping[str, object]) -> dict[str, object]:
